@@ -103,51 +103,6 @@ def commonOfJson (j : Json) : Except String Common := do
   let steps ← stepsOfSpelling (← j.getObjVal? "spelling")
   return { env := genEnv classes flags, heap, target, sroot := root == "S", sref, steps }
 
-/-! ### canonical numbering of the model's heap (for comparing with the harness' snapshot):
-    pre-existing cells keep their address, then the factory-made objects in call order, then every
-    other new cell reachable from those in first-visit (pre-order) order; unreachable new cells
-    (garbage the harness cannot see) are dropped. -/
-
-def refsOf : Obj → List Nat
-  | .list _ xs | .tuple _ xs | .set _ xs => xs.filterMap (fun v => match v with | .ref a => some a | _ => none)
-  | .dict _ es => (es.flatMap (fun e => [e.1, e.2])).filterMap (fun v => match v with | .ref a => some a | _ => none)
-  | .inst _ as => as.filterMap (fun e => match e.2 with | .ref a => some a | _ => none)
-
-partial def visit (h : Heap) (order : Array Nat) (a : Nat) : Array Nat :=
-  if order.contains a then order
-  else match h[a]? with
-    | some o => (refsOf o).foldl (visit h) (order.push a)
-    | none => order
-
-def canonOrder (h : Heap) (n : Nat) (made : List Nat) : Array Nat := Id.run do
-  let mut order : Array Nat := (List.range n).toArray
-  for a in made do
-    if !order.contains a then order := order.push a
-  let mut i := 0
-  while i < order.size do
-    match h[order[i]!]? with
-    | some o => for r in refsOf o do order := visit h order r
-    | none => pure ()
-    i := i + 1
-  return order
-
-def renameVal (order : Array Nat) : Val → Val
-  | .ref a => match order.idxOf? a with
-    | some i => .ref i
-    | none => .ref a
-  | v => v
-
-def renameObj (order : Array Nat) : Obj → Obj
-  | .list c xs => .list c (xs.map (renameVal order))
-  | .tuple c xs => .tuple c (xs.map (renameVal order))
-  | .set c xs => .set c (xs.map (renameVal order))
-  | .dict c es => .dict c (es.map (fun e => (renameVal order e.1, renameVal order e.2)))
-  | .inst c as => .inst c (as.map (fun e => (e.1, renameVal order e.2)))
-
-def canonHeap (h : Heap) (n : Nat) (made : List Nat) : Heap :=
-  let order := canonOrder h n made
-  order.toList.filterMap (fun a => (h[a]?).map (renameObj order))
-
 def resTag : ObsRes → String
   | .ok _ => "ok"
   | .err c (some i) .. => s!"{c}({i})"
@@ -164,8 +119,7 @@ def run (j : Json) : Except String Json := do
   let ref := refAssign c.env c.heap c.target root c.steps vs missing
   if ref == .unsupported || (match out.2 with | .error .unmodelled => true | _ => false) then
     return Json.mkObj [("skip", true), ("why", "path outside the modelled domain (`**` / wildcard value)")]
-  let canon : Obs := { modelObs with heap := canonHeap out.1.heap c.heap.length out.1.made }
-  let agree := canon == implObs
+  let agree := modelObs == implObs
   let holds := checkC11 c.env c.heap c.target root c.steps vs missing implObs
   let modelHolds := checkC11 c.env c.heap c.target root c.steps vs missing modelObs
   let star := hasStar c.steps
@@ -176,7 +130,7 @@ def run (j : Json) : Except String Json := do
     (if out.1.calls > 0 then s!"missing{out.1.calls}:" else "") ++ resTag modelObs.res ++
     (if cov then " [thm]" else if covStar then " [thm*]" else "")
   return Json.mkObj [("agree", agree), ("holds", holds), ("model_holds", modelHolds),
-    ("wf", WF c.env), ("covered", cov || covStar), ("model", obsToJson canon),
+    ("wf", WF c.env), ("covered", cov || covStar), ("model", obsToJson modelObs),
     ("ref", match ref with
       | .ok _ hid n => s!"ok hidden={hid} calls={n}" | .fail a => s!"fail atomic={a}" | .unsupported => "unsupported"),
     ("branch", branch)]
